@@ -22,7 +22,8 @@ What is PROVED here (all unbounded: any number of upstream states, any axis size
   * `C03_group_test`      (WfState/LemmasRoute.lean) with duplicate-free keys, the code's selection of a combiner group by
                           dictionary inclusion = the reference's selection by restricting the job's coordinates.
   * witnesses (kernel evaluation of both interpreters): diamond (D2), descendant (D31), second-pass TypeError (D30),
-    partial zip combiner (D29), all-previous-axes combiner (D33), later upstream through two fields (D34).
+    partial zip combiner (D29), all-previous-axes combiner (D37), later upstream through two fields (D38), node name
+    contained in a foreign combiner key (D39).
 What is NOT proved: `C03_full_statement` (false: `C03_full_statement_false`), and the workflow-level statement
 "`Model.run w = Spec.run w` for every workflow in `InClass`" — that composition (the bookkeeping passes hand exactly
 these inputs to the node step) is compared by the correspondence check on every generated workflow and reported as testing.
@@ -284,7 +285,7 @@ theorem C03_witness_partial_zip :
     modelSummary partialZip = .crash .attributeError ∧
     specSummary partialZip = .ok [(0, 2), (1, 1)] [[[], [], [], []]] := by decide +kernel
 
-/-- D33: a node with an own splitter whose combiner removes every inherited axis. -/
+/-- D37: a node with an own splitter whose combiner removes every inherited axis. -/
 def combAllPrev : Wf :=
   { nodes := [nd 0 l3 .none .none (.single .x), nd 1 (.up 0) l2 .none (.single .y) [(0, .x)]], outs := [1] }
 
@@ -292,7 +293,7 @@ theorem C03_witness_comb_all_prev :
     modelSummary combAllPrev = .crash .valueError ∧
     specSummary combAllPrev = .ok [(0, 3), (1, 6)] [[[], []]] := by decide +kernel
 
-/-- D34: the second upstream state feeds two fields: the second field receives the whole list
+/-- D38: the second upstream state feeds two fields: the second field receives the whole list
     (input shape 2 = a list of upstream outputs, where the reference has shape 1 = one upstream output). -/
 def laterMulti : Wf :=
   { nodes := [nd 0 l2 .none .none (.single .x), nd 1 l3 .none .none (.single .x), nd 2 (.up 0) (.up 1) (.up 1)],
@@ -302,6 +303,20 @@ theorem C03_witness_later_multi :
     modelSummary laterMulti = .ok [(0, 2), (1, 3), (2, 6)] [[[1, 1, 2], [1, 1, 2], [1, 1, 2], [1, 1, 2], [1, 1, 2], [1, 1, 2]]] ∧
     specSummary laterMulti = .ok [(0, 2), (1, 3), (2, 6)] [[[1, 1, 1], [1, 1, 1], [1, 1, 1], [1, 1, 1], [1, 1, 1], [1, 1, 1]]] ∧
     Class.noSharedOrigin laterMulti = true := by decide +kernel
+
+/-- D39: the second node is *named* `x`, a substring of the upstream key `a.x` it combines: `State.current_combiner`
+    (`self.name in comb`) takes the inherited axis for the node's own (`ownCombOverride`, computed from the real strings by the
+    driver). -/
+def nameClashWf : Wf :=
+  { nodes := [nd 0 l3 .none .none (.single .x),
+              { nd 1 (.up 0) .none .none .no [(0, .x)] with ownCombOverride := some [(0, .x)] }], outs := [1] }
+
+/-- WITNESS D39: the output is a list of three one-element groups (no job output at the top level: shapes `[]`) where the
+    reference has one flat list of the three job outputs. -/
+theorem C03_witness_name_clash :
+    modelSummary nameClashWf = .ok [(0, 3), (1, 3)] [[[], [], []]] ∧
+    specSummary nameClashWf = .ok [(0, 3), (1, 3)] [[[1, 0, 0], [1, 0, 0], [1, 0, 0]]] ∧
+    (Class.flags nameClashWf).nameClash = true := by decide +kernel
 
 /-- The FULL statement of C03 for the model of the code: every well-formed workflow evaluates as the nested-loop
     reference says.  NOT claimed — it is false for the pinned tree (next theorem). -/
@@ -313,7 +328,7 @@ theorem C03_full_statement_false : ¬ C03_full_statement := by
   rw [C03_witness_diamond.1, C03_witness_diamond.2.1] at ha
   exact absurd ha (by decide)
 
-/-- Even restricted to workflows without shared origins the full statement fails (D34). -/
+/-- Even restricted to workflows without shared origins the full statement fails (D38). -/
 theorem C03_no_shared_origin_not_enough :
     ¬ (∀ w : Wf, Class.wellFormed w = true → Class.noSharedOrigin w = true → Agrees w) := by
   intro h
